@@ -81,6 +81,12 @@ CLASS_EXTRUDE_MUT = 'extrude-mutates-operand'                # C11 (model follow
 CLASS_CTOR_GAP = 'constructor-accepts-non-periodic-knot-vector'   # C08
 CLASS_LOWER_WEIGHTS = 'lower-order-nonpositive-weights'
 CLASS_MAKEPER_SHORT = 'make-periodic-short-direction-shape-mismatch'   # fewer than order+continuity functions
+# periodic insert_knot into a basis with n < p+k functions: on the PINNED code the ghost-knot repair reads knots it has
+# already overwritten; for the smallest bases this breaks the knot structure itself (ghost knots, weights 0), not only
+# the geometry.  The Lean model mirrors that repair loop statement by statement, so this label is given ONLY when the
+# model reproduces the broken state exactly (no correspondence difference): any other way of breaking the structure of
+# a small periodic basis (e.g. re-syncing the wrong ghost side) shows up as a difference and stays unclassified.
+CLASS_PER_SMALL_STRUCT = 'periodic-small-basis-structure'
 
 _sp_cache = None
 
@@ -713,6 +719,11 @@ def _gen_instr(rng, sp, pool, max_pool, defect=False):
         if not roomy or small[d] or ncp > 300:
             return None
         cnt = rng.choice([1, 1, 2, 3])
+        if per[d] >= 0 and not all(float(x * 2.0 ** 20).is_integer() for x in b.knots):
+            # several split points on a periodic direction: after the roll (knots - t1, rounded) the code looks the next
+            # points up with exact bisect_left; with non-dyadic knots (thirds from refine(2), ...) a rolled knot can differ
+            # from its copy by one ulp and the cut lands one index off (C07's business, invisible to the exact model)
+            cnt = 1
         refs = _dedupe(_knot_refs(rng, b, cnt, allow_end=False))
         if per[d] < 0:
             # the start of a non-periodic direction is skipped by the code; keep it sometimes
@@ -1268,6 +1279,9 @@ def classify(s, res=None):
     fs = _failures_of(r, s['ops'])
     upto = fs[0][0] if fs else len(s['ops']) - 1
     first = fs[0][1] if fs else ''
+    if fs and upto >= 0 and CLASS_PER_SMALL in r['flags'][upto] and res is not None and res.get('diff') is None \
+            and res.get('model') is not None:
+        return CLASS_PER_SMALL_STRUCT
     if fs and upto >= 0 and ('not finite' in first or 'weight nan' in first) and s['ops'][upto]['op'] in ('raise', 'append', 'identical'):
         st = r['steps'][upto]
         if 'changed' in st and any(len(c[1]['bases']) == 1 for c in st['changed']):
